@@ -20,6 +20,7 @@ class Func:
         self.short = name.split("::")[-1]
         self.nlines = 0
         self.promoted = False
+        self.const_item = False
 
 
 class Block:
@@ -94,7 +95,7 @@ def parse_dump(text):
     i, n = 0, len(lines)
     while i < n:
         line = lines[i]
-        cm = re.match(r"^const (.+::promoted\[\d+\]): (.+) = \{$", line)
+        cm = re.match(r"^const (.+::promoted\[\d+\]): (.+) = \{$", line) or re.match(r"^const ([A-Z][A-Z0-9_]*): (.+) = \{$", line)
         if (line.startswith("fn ") and line.endswith("{")) or cm:
             m = HEADER_RE.match(line) if not cm else None
             if not m and not cm:
@@ -116,6 +117,8 @@ def parse_dump(text):
                 f.impl_at = (im.group(1), int(im.group(2)))
             if "::promoted[" in name:
                 f.promoted = True
+            elif cm:
+                f.const_item = True
             for (k, t) in params:
                 f.locals[k] = t
             start = i
@@ -353,8 +356,12 @@ def parse_rvalue(s):
         path = s[:k]
         inner = s[k + 1:-1]
         return Rvalue("adt", path=path, fields=[(None, parse_operand(x)) for x in split_top(inner)] if inner.strip() else [], named=False)
+    if re.match(r"^[a-z_]\w*(::\w+)*$", s) and re.match(r"^[a-z_]", s.split("::")[-1]):
+        return Rvalue("fnitem", path=s)      # the zero-sized value of a function item
     if re.match(r"^[A-Za-z_<]", s) and "::" in s and re.match(r"^\w+$", s.split("::")[-1]):
         return Rvalue("adt", path=s, fields=[], named=False)
+    if re.match(r"^[A-Z]\w*$", s):
+        return Rvalue("adt", path=s, fields=[], named=False)      # a unit struct value (`Utc`)
     raise ValueError("rvalue? " + s)
 
 
